@@ -24,6 +24,10 @@ from . import types as T
 
 _MISSING = object()
 
+
+class NotThisSpec(Exception):
+    pass
+
 DEFAULT_DROPS = ["logging", "print", "pbar.update", "pbar.close", "messages.append", "warnings.warn"]
 
 
@@ -44,6 +48,26 @@ class Theory:
         self.udiv = z3.Function("udiv", *I2)
         self.umod = z3.Function("umod", *I2)
         self.ucdiv = z3.Function("ucdiv", *I2)
+
+        # Opaque ("dynamic") Python values: items of a tuple-like value, pairs, boxed ints and
+        # application of an opaque callable to opaque argument packs.
+        Vl = V.Val
+        self.item = z3.Function("val_item", Vl, z3.IntSort(), Vl)
+        self.pack2 = z3.Function("val_pack2", Vl, Vl, Vl)
+        self.pack3 = z3.Function("val_pack3", Vl, Vl, Vl, Vl)
+        self.box_int = z3.Function("val_box_int", z3.IntSort(), Vl)
+        self.unbox_int = z3.Function("val_unbox_int", Vl, z3.IntSort())
+        self.apply = z3.Function("val_apply", Vl, Vl, Vl, Vl)
+        self.nokw = z3.Const("val_no_kwargs", Vl)
+
+    def dyn_axioms(self):
+        a, b, c = z3.Consts("da db dc", V.Val)
+        n = z3.Int("dn")
+        return [
+            z3.ForAll([a, b], z3.And(self.item(self.pack2(a, b), 0) == a, self.item(self.pack2(a, b), 1) == b), patterns=[self.pack2(a, b)]),
+            z3.ForAll([a, b, c], z3.And(self.item(self.pack3(a, b, c), 0) == a, self.item(self.pack3(a, b, c), 1) == b, self.item(self.pack3(a, b, c), 2) == c), patterns=[self.pack3(a, b, c)]),
+            z3.ForAll([n], self.unbox_int(self.box_int(n)) == n, patterns=[self.box_int(n)]),
+        ]
 
     @staticmethod
     def _num(t):
@@ -111,6 +135,8 @@ class Property:
         self.hints = []  # (name, formula, lean_name)
         self.lemmas: list[Lemma] = []
         self.theory = Theory()
+        for i, ax in enumerate(self.theory.dyn_axioms()):
+            self.hints.append((f"def.dyn.{i}", ax, None))
         self._str_elems = {}
         self.assumptions = []
         self.eq_override = set()
@@ -192,13 +218,11 @@ class Property:
         return cands[0] if cands else None
 
     def elem_of_str(self, s):
-        if s not in self._str_elems:
-            self._str_elems[s] = z3.Const(f"str:{s}", V.Elem)
-        return self._str_elems[s]
+        return V.str_elem(s)
 
     def distinct_axioms(self):
         out = []
-        es = list(self._str_elems.values())
+        es = list(V.STR_ELEMS.values())
         if len(es) > 1:
             out.append(z3.Distinct(*es))
         return out
@@ -273,6 +297,8 @@ class FnCtx:
         self.decreases_term = None
         self._bound = None
         self.frame_rules = []
+        self.free_vars = {}
+        self.yield_type = None
 
     # ---------------------------------------------------------------- signature
     def _signature(self):
@@ -349,6 +375,11 @@ class FnCtx:
         if isinstance(typ, T._Scalar):
             if isinstance(v, V.QuotV):
                 v = to_num(v)
+            if isinstance(v, OptV):
+                # a maybe-None value where the callee needs a plain one: must not be None here
+                self.ex.oblige(f"{self.ex.qualname}/call.{self.spec.name}.arg.{name}.not_none@{self._line()}", z3.Not(v.isnone), "call-precondition")
+                self.ex.assume(z3.Not(v.isnone))
+                v = v.val
             if is_z3(v):
                 return coerce(v, typ.sort)
             if isinstance(v, StrV) and typ.sort == V.Elem:
@@ -368,7 +399,50 @@ class FnCtx:
 
             if isinstance(v, EmptySeq):
                 return empty_seq(typ.elem.shape())
+            if isinstance(v, SeqV):
+                return self.ex.materialize(v)  # arrays given by lambdas get a name (usable in patterns)
+        if isinstance(typ, T.MAP):
+            from .engine import EmptyDict
+            from .builtins import empty_map
+
+            if isinstance(v, EmptyDict):
+                return empty_map(typ.key.shape(), typ.val.shape(), typ.ordered)
         return v
+
+    def applies(self, cond: bool):
+        """In call mode: this contract covers the call only if `cond` (a Python bool computed
+        from the actual arguments' shapes / constants); otherwise the next one is tried."""
+        if self.mode == "call" and not cond:
+            raise NotThisSpec()
+
+    def free(self, name, typ):
+        """A closure variable of a nested function under contract: a fresh symbol when the
+        nested function is verified, the enclosing function's current value at a call."""
+        if self.mode == "verify":
+            v = typ.fresh(name)
+            for ax in wf_axioms(v):
+                self.ex.assume(ax)
+            self.free_vars[name] = v
+        else:
+            try:
+                v = self._conform(self.ex.env.get(name), typ, name)
+            except KeyError:
+                raise Unsupported(f"closure variable {name} of {self.spec.qualname} is not bound at the call")
+        return v
+
+    def yields(self, typ):
+        """The function is a generator; its result (for postconditions and callers) is the
+        sequence of yielded values, of this SEQ type."""
+        self.yield_type = typ.elem
+        return self.result(typ)
+
+    def result_is(self, value):
+        """The result is this term of the arguments (for pure, assumed externals: gives the
+        result functional dependence on the arguments, needed inside comprehensions)."""
+        self.result_type = None
+        if self.mode == "call":
+            self.res = value
+        return value
 
     def local(self, name, typ):
         """Declared type of a local container so that `[]`, `set()`, `{}` get a sort."""
